@@ -113,9 +113,58 @@ fn one(drv: &mut Driver, rep: &mut Report, rng: &mut impl RngCore, stream: &str,
     }
 }
 
+/// TWO proofs in a row on one transcript (the prover's `&mut Transcript` is advanced by `prove`, the verifier's by `verify`):
+/// both must verify when the verifier replays the sequence on one transcript of the same context, and the second proof is
+/// bound to the first (it must not verify on a fresh transcript of that context)
+fn sequence(drv: &mut Driver, rep: &mut Report, c: &Case, x2: &Scalar, base2: &ProjectivePoint) {
+    let mut tape = TapeRng::new(c.tape.clone());
+    let mut tp = transcript(&c.ctx);
+    let p1 = DLogProof::prove(&c.x, &c.base, &mut tp, &mut tape);
+    let p2 = DLogProof::prove(x2, base2, &mut tp, &mut tape);
+    let (y1, y2) = (c.base * c.x, *base2 * *x2);
+    let (t1, t2) = (ProjectivePoint::from(p1.t), ProjectivePoint::from(p2.t));
+    let req = format!("dlog prove2 {} {} {} {} {} {}", sc_hex(&c.x), pt(&c.base), sc_hex(x2), pt(base2), ctx_str(&c.ctx), hex::encode(&c.tape));
+    let idx = rep.case("two-proofs-one-transcript", Some(&req));
+    let tz = |s: &Scalar| { let h = sc_hex(s); let t = h.trim_start_matches('0'); if t.is_empty() { "0".to_string() } else { t.to_string() } };
+    let got = format!("{}:{}:{}:{}:{}:{}:{}", pt(&t1), tz(&p1.s), pt(&y1), pt(&t2), tz(&p2.s), pt(&y2), tape.used);
+    let model = drv.ask_with(&req, &mut |q| oracle::answer(q));
+    let norm = |s: &str| s.split(':').map(|f| { let t = f.trim_start_matches('0'); if t.is_empty() { "0" } else { t } }.to_string()).collect::<Vec<_>>().join(":");
+    if norm(&got) != norm(&model) {
+        rep.diverge(Failure { stream: "two-proofs-one-transcript".into(), index: idx, request: vec![req.clone()], impl_out: got, model_out: model, key: "dlog:prove2-model".into(), what: "Lean proveAdv (twice) and two DLogProof::prove calls on one transcript disagree".into() });
+    }
+    let mut tv = transcript(&c.ctx);
+    let ok1: bool = p1.verify(&y1, &c.base, &mut tv).into();
+    let ok2: bool = p2.verify(&y2, base2, &mut tv).into();
+    let vreq = format!("dlog verify2 {} {} {} {} {} {} {} {} {}", pt(&t1), sc_hex(&p1.s), pt(&y1), pt(&c.base), pt(&t2), sc_hex(&p2.s), pt(&y2), pt(base2), ctx_str(&c.ctx));
+    let mv = drv.ask_with(&vreq, &mut |q| oracle::answer(q));
+    if !(ok1 && ok2) {
+        rep.pred_fail(Failure { stream: "two-proofs-one-transcript".into(), index: idx, request: vec![req.clone(), vreq.clone()], impl_out: format!("{ok1} {ok2}"), model_out: "both accepted".into(), key: "dlog:complete:second-proof".into(),
+            what: "honest proofs made in a row on one transcript are not both accepted by a verifier replaying the sequence".into() });
+    }
+    if mv != format!("{}{}", ok1 as u8, ok2 as u8) {
+        rep.diverge(Failure { stream: "two-proofs-one-transcript".into(), index: idx, request: vec![vreq], impl_out: format!("{}{}", ok1 as u8, ok2 as u8), model_out: mv, key: "dlog:verify2-model".into(), what: "Lean verifyAdv (twice) and two DLogProof::verify calls on one transcript disagree".into() });
+    }
+    if !bool::from(x2.is_zero()) {
+        let fresh: bool = p2.verify(&y2, base2, &mut transcript(&c.ctx)).into();
+        if fresh {
+            rep.pred_fail(Failure { stream: "two-proofs-one-transcript".into(), index: idx, request: vec![req], impl_out: "accepted".into(), model_out: "rejected".into(), key: "dlog:accepts:second-proof-on-fresh-transcript".into(),
+                what: "the second proof of a sequence verifies on a fresh transcript of the same context: it is not bound to what the transcript absorbed before it".into() });
+        }
+    }
+}
+
 pub fn replay(drv: &mut Driver, rep: &mut Report, lines: &[String]) {
     for l in lines {
         let t: Vec<&str> = l.split(' ').collect();
+        if t.len() == 11 && t[1] == "prove2" {
+            let p = |h: &str| oracle::k_point(&hex::decode(h).unwrap_or_default());
+            if let (Some(b1), Some(b2)) = (p(t[3]), p(t[5])) {
+                let label = LABELS.iter().find(|x| hexw(x) == t[9]).copied().unwrap_or(b"test-dlog-proof");
+                let ctx = Ctx { sid: if t[6] == "-" { vec![] } else { hex::decode(t[6]).unwrap_or_default() }, party: t[7].parse().unwrap_or(0), action: if t[8] == "-" { vec![] } else { hex::decode(t[8]).unwrap_or_default() }, label };
+                let c = Case { x: oracle::scalar_from_nat_hex(t[2]), base: b1, ctx, tape: hex::decode(t[10]).unwrap_or_default() };
+                sequence(drv, rep, &c, &oracle::scalar_from_nat_hex(t[4]), &b2);
+            }
+        }
         if t.len() == 10 && t[1] == "verify" {
             let p = |h: &str| oracle::k_point(&hex::decode(h).unwrap_or_default());
             if let (Some(tt), Some(y), Some(b)) = (p(t[2]), p(t[4]), p(t[5])) {
@@ -142,7 +191,13 @@ pub fn run(o: &Opts, drv: &mut Driver, rep: &mut Report) {
         let mut tape = vec![0u8; 160]; rng.fill_bytes(&mut tape);
         if k % 7 == 3 { for b in tape[..32].iter_mut() { *b = 0xff; } }          // first draw is >= q: rejection sampling retries
         if k % 11 == 5 { for b in tape[..32].iter_mut() { *b = 0; } }            // nonce r = 0
-        one(drv, rep, &mut rng.clone(), "honest", &Case { x, base, ctx, tape });
+        let c = Case { x, base, ctx, tape };
+        one(drv, rep, &mut rng.clone(), "honest", &c);
         let _ = rng.next_u64();
+        if k % 3 == 0 {
+            let x2 = if k % 9 == 0 { c.x } else { Scalar::random(&mut rng) };
+            let base2 = if k % 2 == 0 { c.base } else { ProjectivePoint::GENERATOR * Scalar::random(&mut rng) };
+            sequence(drv, rep, &c, &x2, &base2);
+        }
     }
 }
